@@ -596,41 +596,53 @@ func c06RecordTotal(es []c06Entry) int {
 	return l + binary.PutUvarint(make([]byte, 10), uint64(l))
 }
 
-// c06SearchTotal looks for n entries whose record is exactly `target` bytes long
+// c06SearchTotal looks for n entries whose record is exactly `target` bytes long: zstd output length cannot be
+// chosen directly, so the search walks the entry magnitudes (one uvarint byte more or less at a time).
 func c06SearchTotal(rng *zz.RNG, n int, target int) []c06Entry {
-	es := make([]c06Entry, n)
-	bits := 20
-	for try := 0; try < 4000; try++ {
-		for i := range es {
-			m := uint64(1)<<uint(bits) - 1
-			es[i] = c06Entry{off: rng.U64() & m, size: rng.U64() & (m >> 3), slot: 1 + 2*(rng.U64()&(m>>6)), flags: uint8(rng.U64() % 8)}
+	field := func(e *c06Entry, f int) *uint64 {
+		switch f {
+		case 0:
+			return &e.off
+		case 1:
+			return &e.size
 		}
-		// coarse: widen/narrow all values; fine: single entries
-		for fine := 0; fine < 200; fine++ {
+		return &e.slot
+	}
+	for attempt := 0; attempt < 8; attempt++ {
+		es := make([]c06Entry, n)
+		for i := range es {
+			es[i] = c06Entry{off: rng.U64() & 0x3fff, size: rng.U64() & 0x3fff, slot: rng.U64() & 0x3fff, flags: uint8(rng.U64() % 8)}
+		}
+		for step := 0; step < 6000; step++ {
 			t := c06RecordTotal(es)
 			if t == target {
 				return es
 			}
-			i := rng.Intn(n)
-			if t < target {
-				es[i].off = es[i].off<<7 | rng.U64()&0x7f
-				if es[i].off == 0 {
-					es[i].off = 1 << 20
+			d := t - target
+			k := 1
+			if d > 8 || d < -8 {
+				k = abs(d)/2 + 1
+			}
+			for ; k > 0; k-- {
+				v := field(&es[rng.Intn(n)], rng.Intn(3))
+				if d < 0 {
+					if *v < 1<<55 {
+						*v = *v<<7 | rng.U64()&0x7f
+					}
+				} else if *v >= 128 {
+					*v >>= 7
 				}
-			} else {
-				es[i].off >>= 7
 			}
-			if d := t - target; d > 64 || d < -64 {
-				break
-			}
-		}
-		if t := c06RecordTotal(es); t < target && bits < 62 {
-			bits++
-		} else if t > target && bits > 3 {
-			bits--
 		}
 	}
 	return nil
+}
+
+func abs(x int) int {
+	if x < 0 {
+		return -x
+	}
+	return x
 }
 
 func (g *c06Gen) real(thorough bool, s *zz.Session) {
